@@ -33,7 +33,10 @@ tail -15 $BASE/$P.demo.with.log > $D/demo/output_with_change.txt 2>/dev/null
 tail -5 $BASE/$P.demo.without.log > $D/demo/output_without_change.txt 2>/dev/null
 # run the checks against /repo with the change applied
 cd /verif
-git -C /repo apply $BASE/$P.patch || { echo "patch does not apply to /repo"; exit 2; }
+# (SEEDREPO=<clean scratch worktree of /repo at HEAD>: apply the change there and check that tree - VERIF_REPO - while /repo is busy)
+TREE=${SEEDREPO:-/repo}
+[ "$TREE" = /repo ] || export VERIF_REPO=$TREE
+git -C $TREE apply $BASE/$P.patch || { echo "patch does not apply to $TREE"; exit 2; }
 RES=""
 for c in $CHECKS; do
   timeout 1800 ./check $c --tier quick > $BASE/$P.check.$c.log 2>&1; E=$?
@@ -41,6 +44,6 @@ for c in $CHECKS; do
   grep -A1 '^VIOLATION' $BASE/$P.check.$c.log | grep clause= | head -4
   RES="$RES $c:$E"
 done
-git -C /repo checkout -- .
-git -C /repo status --short | head -3
+git -C $TREE checkout -- .
+git -C $TREE status --short | head -3
 echo "RESULT $P demo_with=$WITH demo_without=$WITHOUT checks:$RES"
